@@ -410,7 +410,12 @@ func (r *Retrieve[K, E]) execKeys(ctx context.Context, tx Tx) ([]K, error) {
 			return nil, err
 		}
 		if reader.keyCodec.matchPrefix(r.prefix, e.GorpKey()) {
-			match, mErr := r.match(gorpCtx, &e, nil, b)
+			// The raw-byte predicate is part of the filter whichever way the
+			// candidates were found.
+			match, mErr := r.matchRaw(reader.keyCodec.encode(k), b)
+			if mErr == nil && match {
+				match, mErr = r.match(gorpCtx, &e, nil, b)
+			}
 			if mErr != nil {
 				return nil, errors.Combine(mErr, closer.Close())
 			}
@@ -524,7 +529,10 @@ func (r *Retrieve[K, E]) execOrdered(ctx context.Context, tx Tx) error {
 			}
 			return err
 		}
-		match, mErr := r.match(gorpCtx, &e, nil, b)
+		match, mErr := r.matchRaw(reader.keyCodec.encode(k), b)
+		if mErr == nil && match {
+			match, mErr = r.match(gorpCtx, &e, nil, b)
+		}
 		if mErr != nil {
 			return errors.Combine(mErr, closer.Close())
 		}
